@@ -106,7 +106,14 @@ def fbits(v):
 
 KNOWN_CONST = "C13-constant-image-rounding"
 FLOAT_DTYPES = {"float64": (53, -1074), "float32": (24, -149)}
-INT_DTYPES = ("int64", "int32", "uint8", "uint16")
+INT_DTYPES = ("int64", "int32", "uint8", "uint16", "uint32", "uint64", "int8", "int16")
+INT_CAP = 2 ** 46  # |pixel| of an integer image: every window sum (up to 127 values) is below 2^53, exact in binary64
+
+
+def int_range(dtype, cap=INT_CAP):
+    """the values an integer image of this dtype is drawn from: the dtype's range, cut at +-cap"""
+    ii = np.iinfo(dtype)
+    return max(int(ii.min), -cap), min(int(ii.max), cap)
 MAX_ABS = 1e300  # |x| above ~9e307 overflows (a + b) in np.median of two pad values; squares of rounding noise may be inf
 
 
@@ -174,8 +181,11 @@ class FloatTol:
     a fourth for the float32 constant.  A pad value (mean of the two middle values of an even count) carries one
     rounding per axis; order statistics move by at most the largest perturbation."""
 
-    def __init__(self, p, block, t, t_used, int_data=False):
+    def __init__(self, p, block, t, t_used, int_data=False, is_int=False):
         self.int_data = int_data  # integer pixels with N*max|x| < 2^53: every window sum is exact in binary64
+        # median filter: a pad value is exact when it is a selection (odd half-window) or rounded to an integer (np.pad
+        # rounds the pad values of an integer image: the mechanism model does the same)
+        self.pads_exact = bool(is_int) or all((b // 2) % 2 == 1 for b in block)
         self.u = Fraction(1, 2 ** p)
         self.N = int(np.prod(block))
         self.P = sum(b // 2 for b in block) + 2
@@ -205,21 +215,29 @@ class FloatTol:
             out = cur
         return [Fraction(float(v)) for v in out.ravel()]
 
-    def repl_tol(self, kind, real, rabs, A):
+    def repl_tol(self, kind, real, rabs, A, corner=True):
         """how far a replaced value may be from the exact replacement.  Mean filter: Lean's `replBound u E rabs`
         (theorems rounded_window_within_bound / rounded_mean_any_order): E = N + 2 roundings (N + P + 2 when the
         window holds pad values, themselves rounded means), rabs = the mean magnitude of the values that are
         averaged (the driver's `rabs`: the same replacement computed on the image of absolute values) - NOT the
         magnitude of the pixel that is replaced and not the largest value of the image; plus one unit of the
-        smallest subnormal for the division.  Median filter: a selection, exact on real windows; a pad value that
-        is the mean of two middle values carries one rounding per axis (A = largest magnitude within reach)."""
+        smallest subnormal for the division.  Median filter: a selection, exact on real windows and on windows whose
+        pad values are exact (`pads_exact`); otherwise a pad value is the mean of the two middle values of an edge
+        chunk, one rounding RELATIVE to itself, and x -> x(1 +- 4u) is increasing, so the median of the window moves
+        by at most 4u relative to itself (rabs = |median|); only in the corner regions of a 2-D image, where the two
+        middle values may be pad values of opposite sign that cancel, the bound is relative to A (largest
+        magnitude within reach)."""
         if kind == "mean":
             return 2 * (self.N + (0 if real else self.P) + 2) * self.u * (A if rabs is None else rabs) + self.tiny
-        return Fraction(0) if real else 8 * self.u * A
+        if real or self.pads_exact:
+            return Fraction(0)
+        return 8 * self.u * A if corner or rabs is None else 4 * self.u * rabs
 
-    def margin(self, kind, cell, real, A):
+    def margin(self, kind, cell, real, A, corner=True, mmax=None):
         """-> 'out' | 'in' | 'near' from the exact lhs/rhs of the cell; A >= every |value| the decision of this
-        pixel can see (its window; for the median filter the windows of its window's pixels)"""
+        pixel can see (its window; for the median filter the windows of its window's pixels); median filter on a
+        window with pad values: `corner` = the pixel is within reach of a corner region of a 2-D image, `mmax` >= the
+        |window median| of every pixel of its window"""
         if cell["rhs"] is None:
             return "in"  # infinite threshold: inf*s is inf or NaN, the comparison is false
         if self.inf_used:
@@ -227,22 +245,32 @@ class FloatTol:
         lhs, rhs = unrat(cell["lhs"]), unrat(cell["rhs"])
         u, t = self.u, self.t
         if kind == "mean":
-            if self.int_data and real and lhs == 0:
-                return "in"  # the window mean is the integer x itself, computed exactly: |x - m| is 0 in floats too
+            if self.int_data and lhs == 0:
+                # the window (pad values of an integer image are integers too) sums exactly to N*x: |x - m| is 0 in floats too
+                return "in"
+            if lhs == 0 and rhs == 0 and A == 0:
+                return "in"  # a window of zeros: every sum is exactly 0
             d_lo, d_hi = sqrt_bounds(lhs)
             r_lo, r_hi = sqrt_bounds(rhs)
             n = self.N + (0 if real else self.P)
             e = 2 * ((n + 4) * u * A * (1 + t) + (Fraction(n, 2) + 4) * u * r_hi + t * self.tiny_sd)
         else:
-            if real and (lhs == 0 or rhs == 0) and not self.t_zeroed:
+            exact_med = real or self.pads_exact  # every window median is a selection of exactly known values
+            if exact_med and (lhs == 0 or rhs == 0) and not self.t_zeroed:
                 # x - med is exact when it is 0, a float difference is 0 only then, rounding keeps the order of the
                 # deviations (their median is 0 exactly when the exact one is) and 0 times anything finite is 0
                 return "out" if lhs > 0 else "in"
             d_lo = d_hi = lhs
             r_lo = r_hi = rhs
             e = 2 * (u * d_hi + 6 * u * r_hi + (1 + t) * self.tiny)
-            if not real:
-                e += 2 * (4 + 16 * t) * u * A
+            if not exact_med:
+                if corner or mmax is None:
+                    e += 2 * (4 + 16 * t) * u * A
+                else:
+                    # medians within 4u of themselves (see repl_tol): |x - med| moves by 5u|med|; the deviations of the
+                    # window's pixels by u*dev + 5u*mmax each, an increasing map, so their median (and its pad values,
+                    # relative roundings of non-negative numbers) by 3u*mad + 5.1u*mmax; times 1.4826 t
+                    e += 2 * (5 * u * abs(unrat(cell["repl"])) + 8 * t * u * mmax + 3 * u * r_hi)
         e += 2 * self.t_rel * r_hi
         if self.t_zeroed:
             e += r_hi
@@ -429,6 +457,10 @@ class C13(Prop):
             return self.gen_fgen(rng)
         if r < 0.48:
             return self.gen_hdr(rng)
+        if r < 0.56:
+            return self.gen_ints(rng)
+        if r < 0.63:
+            return self.gen_history(rng)
         ndim = rng.choice([1, 2, 2])
         kind = rng.choice(["mean", "median"])
         if rng.random() < 0.5:
@@ -521,7 +553,8 @@ class C13(Prop):
         dtype = self.gen_dtype(rng)
         c, cls = self.gen_const_value(rng)
         if dtype in INT_DTYPES:
-            c, cls = float(rng.randint(0, 255) if dtype.startswith("u") else rng.randint(-1000, 1000)), "integer"
+            lo_i, hi_i = int_range(dtype, 1000)
+            c, cls = float(rng.randint(max(lo_i, -1000), min(hi_i, 255 if dtype.startswith("u") else 1000))), "integer"
         elif dtype == "float32":
             c = float(np.float32(c)) if abs(c) < 1e38 else float(np.float32(math.copysign(1e30, c) * (0.1 + rng.random())))
         if dtype == "float32":
@@ -588,9 +621,9 @@ class C13(Prop):
             a[sl] = rng.uniform(-3, 3)
             feats.append("constant-region")
         if dtype in INT_DTYPES:
+            lo_i, hi_i = int_range(dtype, 30000)
             a = np.rint(a * rng.choice([1, 10, 100]) / max(1.0, float(np.max(np.abs(a))) / 100))
-            a = np.clip(a + (100 if dtype.startswith("u") else 0), 0 if dtype.startswith("u") else -30000,
-                        255 if dtype == "uint8" else 30000)
+            a = np.clip(a + (100 if dtype.startswith("u") else 0), lo_i, hi_i)
         elif dtype == "float32":
             a = a * rng.choice([1.0, 1.0, 1e-3, 1e3])
         else:
@@ -643,7 +676,7 @@ class C13(Prop):
             a = np.zeros(n)
         a = np.array(a, dtype=np.float64).reshape(shape)
         feats = ["hdr", "hdr-bg:" + style]
-        unit = level if style != "zeros" or dtype in INT_DTYPES else level
+        unit = level
 
         def spike():
             r = rng.random()
@@ -725,6 +758,171 @@ class C13(Prop):
             e[0], e[12] = -4e-83, 6e-88
             yield {**base, "kind": kind, "shape": [25], "fdata": [hexf(v) for v in e], "block": [5], "threshold": hexf(2.0)}
 
+    # ------------------------------------------------------------------ integer images of every dtype
+    def gen_ints(self, rng):
+        """integer images: every unsigned and signed dtype, values low in the dtype's range (a pixel below its window's
+        median or mean: unsigned differences would wrap), high in it (sums beyond the dtype), over the whole range, counts
+        with ties; spikes to the ends of the range.  Pixels stay within +-2^46: all window sums are exact in binary64 and
+        decisions / replacements are evaluated exactly on the integer values."""
+        ndim = rng.choice([1, 2, 2])
+        kind = rng.choice(["mean", "median", "median"])
+        block, shape = self.gen_geometry(rng, ndim, [3, 3, 5, 5, 7, 9], 40 if ndim == 1 else 16)
+        dtype = rng.choice(INT_DTYPES)
+        lo, hi = int_range(dtype)
+        n = int(np.prod(shape))
+        style = rng.choice(["low", "low", "high", "full", "counts", "signed"])
+        if style == "signed" and lo == 0:
+            style = "low"
+        span = hi - lo
+        if style == "low":
+            base = lo if lo == 0 else 0
+            a = [base + rng.randint(0, min(60, span)) for _ in range(n)]
+        elif style == "high":
+            a = [hi - rng.randint(0, min(60, span)) for _ in range(n)]
+        elif style == "full":
+            a = [rng.randint(lo, hi) for _ in range(n)]
+        elif style == "counts":
+            lv = [rng.randint(0, min(9, span)) * rng.choice([1, 1, 3]) for _ in range(8)]
+            a = [max(lo, 0) + rng.choice(lv) for _ in range(n)]
+        else:
+            m = min(100, hi)
+            a = [rng.randint(-m, m) for _ in range(n)]
+        a = np.array(a, dtype=object).reshape(shape)
+        feats = ["ints", "ints:" + style, "ints-dtype:" + dtype]
+        if rng.random() < 0.75:
+            for _ in range(rng.randint(1, 4)):
+                q = tuple(rng.randrange(s_) for s_ in shape)
+                a[q] = rng.choice([lo, hi, hi, (lo + hi) // 2, max(lo, min(hi, int(a[q]) + rng.choice([-1, 1]) * rng.choice([9, 70, 900, 10 ** 6])))])
+            feats.append("spikes")
+        if rng.random() < 0.3:
+            q = [rng.randrange(s_) for s_ in shape]
+            sl = tuple(slice(c, c + rng.randint(1, 3)) for c in q)
+            a[sl] = rng.choice([lo, hi])
+            feats.append("cluster")
+        if rng.random() < 0.25:
+            q = [rng.randrange(s_) for s_ in shape]
+            sl = tuple(slice(c, c + rng.randint(2, 10)) for c in q)
+            a[sl] = rng.randint(lo, min(hi, lo + 50))
+            feats.append("constant-region")
+        thr = rng.choice(["0", 0.5, 1.0, 1.5, 2.0, 3.0, 3.0, 5.0, 10.0, "inf", 0.3, 1.2, 2.5, 1e3])
+        return {"stream": "fgen", "kind": kind, "shape": shape, "fdata": [hexf(float(int(v))) for v in a.ravel()], "block": block,
+                "block_int": len(set(block)) == 1 and rng.random() < 0.5,
+                "threshold": thr if isinstance(thr, str) and thr == "inf" else hexf(float(thr)), "dtype": dtype,
+                "layout": rng.choice(["C", "C", "F", "strided", "reversed"]), "readonly": rng.random() < 0.3, "gen": feats}
+
+    # ------------------------------------------------------------------ histories
+    def gen_history(self, rng):
+        """2-3 calls in one process (see evaluate_history): the same array object again after in-place edits (new spikes,
+        spikes removed, a region overwritten, the whole buffer shifted, another frame copied in), with the same or another
+        threshold / block / filter; another array of the same shape in between; a view of the previous array"""
+        ndim = rng.choice([1, 2, 2])
+        dtype = rng.choice(["float64"] * 5 + ["float32", "uint16", "int32"])
+        isint = dtype in INT_DTYPES
+        wins = [3, 5, 5, 7] if ndim == 1 else [3, 3, 5]
+        shape = [rng.randint(16, 40)] if ndim == 1 else [rng.randint(8, 14), rng.randint(8, 14)]
+        n = int(np.prod(shape))
+
+        def frame():
+            lvl, sg = rng.choice([1.0, 10.0, 300.0]), rng.choice([0.05, 0.3, 1.0])
+            f = np.array([lvl + sg * rng.gauss(0, 1) for _ in range(n)])
+            if isint:
+                f = np.rint(np.abs(f) * 10)
+            for _ in range(rng.randint(1, 4)):
+                f[rng.randrange(n)] += rng.choice([-1, 1]) * rng.choice([9.0, 40.0, 600.0]) * (10 if isint else sg) * (1 if not isint else 1)
+            if isint:
+                f = np.clip(np.rint(f), 0 if dtype.startswith("u") else -30000, 30000)
+            return f
+
+        def blk():
+            if rng.random() < 0.5:
+                return [rng.choice(wins)] * ndim
+            return [rng.choice(wins) for _ in range(ndim)]
+
+        def thr():
+            t = rng.choice([0.5, 1.0, 1.5, 2.0, 3.0, 3.0, 5.0, "0", "inf"])
+            return t if t == "inf" else hexf(float(t))
+
+        def call(on, kind, block, t, view=None):
+            st = {"op": "call", "on": on, "kind": kind, "block": block, "block_int": len(set(block)) == 1 and rng.random() < 0.4,
+                  "threshold": t}
+            if view is not None:
+                st["view"] = view
+            return st
+
+        def edit(cur):
+            how = rng.choice(["set", "set", "set", "add", "copy-other", "region"])
+            if how == "set":
+                at = []
+                for _ in range(rng.randint(1, 5)):
+                    k = rng.randrange(n)
+                    v = cur[k] + rng.choice([-1, 1]) * rng.choice([30.0, 200.0, 5000.0]) if rng.random() < 0.7 else float(np.median(cur))
+                    if isint:
+                        v = float(min(30000, max(0 if dtype.startswith("u") else -30000, round(v))))
+                    at.append([k, hexf(v)])
+                return {"op": "edit", "how": "set", "at": at}
+            if how == "add":
+                return {"op": "edit", "how": "add", "value": hexf(float(rng.choice([1, 5, 100])) if isint else rng.choice([0.5, 3.25, 100.0]))}
+            if how == "region":
+                box = []
+                for s_ in shape:
+                    lo_ = rng.randrange(s_)
+                    box.append([lo_, min(s_, lo_ + rng.randint(1, 6))])
+                v = float(rng.randint(0, 50)) if isint else rng.choice([0.0, 1.5, 77.0])
+                return {"op": "edit", "how": "region", "box": box, "value": hexf(v)}
+            return {"op": "edit", "how": "copy-other"}
+
+        a, b = frame(), frame()
+        kind = rng.choice(["median", "median", "mean"])
+        b0, t0 = blk(), thr()
+        pat = rng.choice(["edit-same", "edit-same", "edit-same", "edit-thr", "edit-block", "edit-filter", "unedited-thr", "other-between",
+                          "view", "three"])
+        other_kind = "mean" if kind == "median" else "median"
+        steps = [call("A", kind, b0, t0)]
+        if pat == "edit-same":
+            steps += [edit(a), call("A", kind, b0, t0)]
+        elif pat == "edit-thr":
+            steps += [edit(a), call("A", kind, b0, thr())]
+        elif pat == "edit-block":
+            steps += [edit(a), call("A", kind, blk(), t0)]
+        elif pat == "edit-filter":
+            steps += [edit(a), call("A", other_kind, b0, t0)]
+        elif pat == "unedited-thr":
+            steps += [call("A", kind, b0, thr())]
+        elif pat == "other-between":
+            steps += [call("B", kind, b0, t0), edit(a), call("A", kind, b0, t0)]
+        elif pat == "view":
+            view = []
+            for s_, w in zip(shape, b0):
+                opts = [[None, None, None]]
+                if s_ - 1 >= w:
+                    opts += [[1, None, None], [None, -1, None]]
+                if (s_ + 1) // 2 >= w:
+                    opts.append([None, None, 2])
+                opts.append([None, None, -1])
+                view.append(rng.choice(opts))
+            steps += [edit(a), call("view", kind, b0, t0, view)]
+            if rng.random() < 0.5:
+                steps += [call("A", kind, b0, t0)]
+        else:
+            steps += [edit(a), call("A", kind, b0, thr()), edit(a), call("A", rng.choice([kind, other_kind]), rng.choice([b0, blk()]), t0)]
+        return {"steps": steps, "shape": shape, "dtype": dtype, "layout": rng.choice(["C", "C", "C", "F", "strided"]),
+                "fdata": [hexf(float(v)) for v in a], "other": [hexf(float(v)) for v in b], "gen": ["history", "hist-pattern:" + pat],
+                "kind": kind, "block": b0}
+
+    def history_targeted(self):
+        """deterministic histories for both filters: filter, overwrite spikes in place, filter the same object again"""
+        sig = [1.0 + 0.01 * ((7 * i * i) % 11) for i in range(24)]
+        sig[6], sig[15] = 57.5, 1.04
+        img = [1.0 + 0.01 * ((5 * i * i) % 13) for i in range(81)]
+        img[40] = 30.0
+        for kind in ("median", "mean"):
+            for shape, data, block, at in (([24], sig, [5], [[6, hexf(1.02)], [15, hexf(41.0)]]),
+                                           ([9, 9], img, [3, 3], [[40, hexf(1.05)], [22, hexf(-25.0)], [58, hexf(44.0)]])):
+                c1 = {"op": "call", "on": "A", "kind": kind, "block": block, "block_int": False, "threshold": hexf(3.0)}
+                yield {"steps": [c1, {"op": "edit", "how": "set", "at": at}, c1, {**c1, "threshold": hexf(1.0)}],
+                       "shape": shape, "dtype": "float64", "layout": "C", "fdata": [hexf(v) for v in data],
+                       "other": [hexf(v + 0.5) for v in data], "gen": ["history", "targeted"], "kind": kind, "block": block}
+
     def float_targeted(self):
         base = {"stream": "fconst", "block_int": False, "layout": "C", "dtype": "float64", "readonly": False, "gen": ["targeted-float"]}
         z, one, inf = hexf(0.0), hexf(1.0), "inf"
@@ -791,15 +989,24 @@ class C13(Prop):
                 yield {**base, "kind": kind, "shape": [6, 6], "data": [3] * 36, "block": [3, 3], "threshold": thr, "block_int": True}
         yield from self.float_targeted()
         yield from self.hdr_targeted()
+        yield from self.history_targeted()
 
     # ------------------------------------------------------------------ evaluation
     def evaluate(self, case, ctx):
+        if "steps" in case:
+            return self.evaluate_history(case, ctx)
+        return self.evaluate_call(case, ctx)
+
+    def evaluate_call(self, case, ctx, prebuilt=None):
+        """one call of a filter, judged against the Lean specification of the array's contents at the time of the call.
+        `prebuilt` = (vals, x, base): the call is made on this existing array object (history cases) instead of on a
+        freshly built one; `case` then describes its current contents."""
         from pewlib.process import filters
 
         kind, shape, block = case["kind"], case["shape"], case["block"]
         fmode = "stream" in case  # float streams: rounding-bound tolerances instead of the dyadic 1e-9
         dtname = case.get("dtype", "float64")
-        vals, x, base = build(case)
+        vals, x, base = build(case) if prebuilt is None else prebuilt
         t = thr_float(case["threshold"])
         # snapshots at byte level (NaN-/signed-zero-proof), of the view and of the buffer behind it
         snap = (x.tobytes(), None if base is None else base.tobytes(), x.shape, x.strides, x.dtype.str,
@@ -850,9 +1057,10 @@ class C13(Prop):
         if fmode:
             maxabs = max(abs(v) for v in vals)
             # integer pixels: window sums are exact only while they stay below 2^53
-            ftol = FloatTol(p_bits, block, t, t_used, is_int and int(np.prod(block)) * maxabs < 2 ** 53)
+            ftol = FloatTol(p_bits, block, t, t_used, is_int and int(np.prod(block)) * maxabs < 2 ** 53, is_int)
             grid = np.array([float(v) for v in vals], dtype=np.float64).reshape(shape)
             a_loc = FloatTol.local_maxabs(grid, halves, 2 if kind == "median" else 1)
+        m_loc = None  # median filter: per pixel, a bound on the |window median| of the pixels of its window
         xs = [float(v) for v in np.asarray(x, dtype=np.float64).ravel()]  # the input as floats (keeps the sign of a zero)
 
         def real_window(p, reach=1):  # no padded value within `reach` half-windows of pixel p
@@ -876,9 +1084,14 @@ class C13(Prop):
             is_x = v == xv
             if fmode:
                 real = real_window(p, 2 if kind == "median" else 1)
-                ra = None if cell.get("rabs") is None else unrat(cell["rabs"])
-                is_r = abs(Fraction(v) - rv) <= ftol.repl_tol(kind, real, ra, a_loc[k]) if math.isfinite(v) else False
-                m = ftol.margin(kind, cell, real, a_loc[k])
+                if kind == "mean":
+                    ra = None if cell.get("rabs") is None else unrat(cell["rabs"])
+                else:
+                    ra = abs(rv)
+                # 2-D: within two half-windows of a row border AND of a column border (corner pads are medians of medians)
+                corner = len(shape) == 2 and all(not (2 * h <= i < s_ - 2 * h) for i, h, s_ in zip(p, halves, shape))
+                is_r = abs(Fraction(v) - rv) <= ftol.repl_tol(kind, real, ra, a_loc[k], corner) if math.isfinite(v) else False
+                m = ftol.margin(kind, cell, real, a_loc[k], corner, None if m_loc is None else m_loc[k])
                 if m == "near":
                     return is_x or is_r, True
                 return (is_r if m == "out" else is_x), False
@@ -955,6 +1168,9 @@ class C13(Prop):
                 out = impl["out"]
                 n_int = n_repl_int = n_repl_border = n_det = 0
                 cmp_model = have_model and impl["shape"] == rep["shape"]
+                if cmp_model and fmode and kind == "median" and not ftol.pads_exact:
+                    med = np.array([float(unrat(c["repl"])) for c in rep["model"]], dtype=np.float64).reshape(shape)
+                    m_loc = [v * (1 + Fraction(1, 2 ** 40)) for v in FloatTol.local_maxabs(med, halves, 1)]
                 if cmp_model:  # the mechanism at every pixel, also of a large image
                     for k in range(n):
                         pk = tuple(int(i) for i in idx[k])
@@ -1032,6 +1248,100 @@ class C13(Prop):
                        undetermined=bool(nears) and spec_ok and model_ok,
                        features=feats if nontrivial else [], note=json.dumps(note) if note else "")
 
+    # ------------------------------------------------------------------ histories: several calls in one process
+    @staticmethod
+    def exact_vals(arr):
+        return [Fraction(int(v)) if arr.dtype.kind in "iu" else Fraction(float(v)) for v in np.asarray(arr).ravel()]
+
+    def evaluate_history(self, case, ctx):
+        """a sequence of calls of the filters in ONE process: on the same array object (edited in place between the
+        calls), on another array of the same shape, on a view of the first array; same or different block / threshold /
+        filter.  Every call is judged, like a single call, against the Lean specification of the contents the array has
+        at the time of that call (the filters are functions of their arguments: nothing may survive a call)."""
+        dtname = case.get("dtype", "float64")
+        dtype = np.dtype(dtname)
+        first = {"stream": "fgen", "shape": case["shape"], "fdata": case["fdata"], "dtype": dtname, "layout": case["layout"]}
+        _, a_arr, a_base = build(first)
+        _, b_arr, _ = build({**first, "fdata": case["other"], "layout": "C"})
+        outs, feats = [], {"history"}
+        calls = [st for st in case["steps"] if st["op"] == "call"]
+        feats.add("hist:calls-%d" % len(calls))
+        edited = False
+        prev = []  # (target name, block, threshold, kind, edited since) of the earlier calls
+        for st in case["steps"]:
+            if st["op"] == "edit":
+                how = st["how"]
+                if how == "set":  # single pixels: new spikes, spikes removed
+                    for k, h in st["at"]:
+                        a_arr[np.unravel_index(int(k), a_arr.shape)] = dtype.type(float.fromhex(h))
+                elif how == "add":  # the whole buffer shifted in place
+                    a_arr += dtype.type(float.fromhex(st["value"]))
+                elif how == "copy-other":  # a reused acquisition buffer: the next frame copied in
+                    a_arr[...] = b_arr
+                elif how == "region":
+                    sl = tuple(slice(lo, hi) for lo, hi in st["box"])
+                    a_arr[sl] = dtype.type(float.fromhex(st["value"]))
+                else:
+                    raise ValueError("bad edit " + how)
+                edited = True
+                feats.add("hist-edit:" + how)
+                continue
+            on = st["on"]
+            if on == "A":
+                target, tbase = a_arr, a_base
+            elif on == "B":
+                target, tbase = b_arr, None
+            else:  # a view of A (a new array object over the same memory)
+                target = a_arr[tuple(slice(*v) for v in st["view"])]
+                tbase = a_base if a_base is not None else a_arr
+            cur = np.asarray(target)
+            sub = {"stream": "fgen", "kind": st["kind"], "shape": list(cur.shape),
+                   "fdata": [hexf(float(v)) for v in cur.ravel()], "block": st["block"], "block_int": st.get("block_int", False),
+                   "threshold": st["threshold"], "dtype": dtname, "layout": case["layout"] if on != "B" else "C",
+                   "readonly": False, "gen": []}
+            o = self.evaluate_call(sub, ctx, prebuilt=(self.exact_vals(cur), target, tbase))
+            outs.append((sub, o))
+            key = (tuple(st["block"]), st["threshold"], st["kind"])
+            for (pon, pkey, ped) in prev:
+                if pon == on == "A":
+                    feats.add("hist:same-object-again")
+                    if edited:
+                        feats.add("hist:same-object-edited")
+                        feats.add("hist:edited+" + ("same-block" if pkey[0] == key[0] else "other-block"))
+                        feats.add("hist:edited+" + ("same-thr" if pkey[1] == key[1] else "other-thr"))
+                        feats.add("hist:edited+" + ("same-filter" if pkey[2] == key[2] else "other-filter"))
+                    else:
+                        feats.add("hist:unedited+" + ("same-thr" if pkey[1] == key[1] else "other-thr"))
+            if on == "B" and any(pon == "A" for pon, _, _ in prev):
+                feats.add("hist:other-array-same-shape")
+            if on == "view":
+                feats.add("hist:view-of-previous")
+            if on == "A" and any(pon == "B" for pon, _, _ in prev) and any(pon == "A" for pon, _, _ in prev):
+                feats.add("hist:other-array-between")
+            prev.append((on, key, edited))
+            if on == "A":
+                edited = False
+        spec_ok = all(o["spec_ok"] for _, o in outs)
+        model_ok = all(o["model_ok"] for _, o in outs)
+        nontrivial = any(o["features"] for _, o in outs)
+        for _, o in outs:
+            feats.update(f for f in o["features"] if not f.startswith(("determined:", "f64-mechanism")))
+        failing = [(sub, o) for sub, o in outs if not o["spec_ok"]]
+        note = ""
+        if failing and all(self.known(sub, o) == KNOWN_CONST for sub, o in failing):
+            note = failing[0][1]["note"]  # nothing but the known finding: let known() recognise it
+        brief = lambda d: {k: v for k, v in d.items() if k != "out"} if isinstance(d, dict) else d
+        impl = {"steps": [brief(o["impl"]) for _, o in outs],
+                "input_unchanged": all(isinstance(o["impl"], dict) and o["impl"].get("input_unchanged", False) for _, o in outs)}
+        if any(isinstance(o["impl"], dict) and "raises" in o["impl"] for _, o in outs):
+            impl["raises"] = "in-step"
+        bad = next((i for i, (_, o) in enumerate(outs) if not (o["spec_ok"] and o["model_ok"])), None)
+        model = {"steps": [o["model"] for _, o in outs], "first_bad_call": bad}
+        spec = {"steps": [o["spec"] for _, o in outs], "first_bad_call": bad}
+        return outcome(impl, model, spec, spec_ok=spec_ok, model_ok=model_ok,
+                       undetermined=any(o["undetermined"] for _, o in outs) and spec_ok and model_ok,
+                       features=feats if nontrivial else [], note=note)
+
     def known(self, case, out):
         """the one accepted deviation: the MEAN filter with a FINITE threshold returns a CONSTANT image whose window
         sums are NOT exact in the computing format with pixels moved by no more than the rounding of a window mean
@@ -1052,6 +1362,17 @@ class C13(Prop):
 
     # ------------------------------------------------------------------ shrinking
     def shrink(self, case):
+        if "steps" in case:
+            steps = case["steps"]
+            for i in range(len(steps) - 1, -1, -1):  # a step less (at least one call stays)
+                rest = steps[:i] + steps[i + 1:]
+                if any(st["op"] == "call" for st in rest):
+                    yield {**case, "steps": rest}
+            if case["layout"] != "C":
+                yield {**case, "layout": "C"}
+            if case.get("dtype", "float64") != "float64":
+                yield {**case, "dtype": "float64"}
+            return
         shape, block = case["shape"], case["block"]
         if "stream" in case:
             arr = None if "fconst" in case else np.array(case["fdata"], dtype=object).reshape(shape)
